@@ -372,7 +372,9 @@ def process_check(tier, seed):
         problems.append(Problem("violation", "process",
                                 {"entry": entry, "seeds_a": {"PYTHONHASHSEED": ref_key[0], "random.seed": ref_key[1]},
                                  "seeds_b": {"PYTHONHASHSEED": h2, "random.seed": r2}},
-                                {"why": "output differs between two processes", "output_a": base["out"], "output_b": other["out"]}))
+                                {"why": "output differs between two processes", "output_a": base["out"], "output_b": other["out"],
+                                 "how_to_replay": "write [entry] to a JSON file F, then run twice: PYTHONHASHSEED=<seed> PYTHONPATH=<repo>:<verif> "
+                                                  "/venv/bin/python impl/c20.py --driver F <random.seed>  and compare the printed records"}))
     return {"name": "process", "problems": problems, "evaluations": len(corpus) * len(results),
             "nontrivial_keys": sorted(nontriv), "stats": stats, "known_hits": known_hits,
             "samples": [{"suite": "process", "case": corpus[0]["id"], "impl": ref[0]["sha"]}]}
